@@ -140,7 +140,7 @@ def rust_str(t):
     return '"' + t.replace("\t", "\\t") + '"'
 
 
-def generate(tier, out_rs, out_meta, group=6, lex_group=12):
+def generate(tier, out_rs, out_meta, group=6, lex_group=4):
     sks = skeletons(tier)
     lex = lex_cases()
     meta = {"sk": {}, "lex": {}, "placeholders": PH}
